@@ -572,3 +572,14 @@ Proof.
   - apply core_head in Crest. simpl in NSrest.
     destruct t2; try discriminate. destruct (last_is_rparen _); discriminate.
 Qed.
+
+(* acceptance of a core token list (one statement) characterised exactly *)
+Theorem parse_characterised : forall ts e,
+  core ts = true -> no_separator ts = true ->
+  (parse ts = Ok [e] [] <-> exists t, wf t = true /\ pr t = ts /\ desugar t = e).
+Proof.
+  intros ts e C NS. split.
+  - intros H. destruct (parse_sound ts [e] C NS H) as [[_ E]|(t & W & P & E)]; [discriminate|].
+    exists t. inversion E; subst. conj; auto.
+  - intros (t & W & P & D). subst. apply roundtrip. exact W.
+Qed.
